@@ -4,6 +4,7 @@ import (
 	"bytes"
 	"encoding/binary"
 	"fmt"
+	"os"
 	"path/filepath"
 	"sort"
 	"strings"
@@ -255,6 +256,11 @@ func genC17(cs *CaseSet, rng *Rng, tier string, dir string) {
 				obs = append(obs, [][]byte{{reply}, {closed}, told, {notice}, {banOK}})
 			}
 			doRestart := func() {
+				// every other restart follows a crash inside an earlier save: the temporary file of that save is
+				// still lying next to the ban list (truncated); it must not keep later bans from being recorded
+				if rng.Bool() {
+					must(os.WriteFile(banPath+".tmp", []byte("10.9.9.9: nu"), 0644))
+				}
 				bf, err := mobius.NewBanFile(banPath)
 				must(err)
 				env.Srv.BanList = bf
